@@ -1,14 +1,15 @@
+import os
 import re
 
 import vf
 
 FILES = ["search/zz_verif_c19_test.go", "search/zz_verif_c19race_test.go", "search/zz_verif_c19watch_test.go",
-         "search/zz_verif_c19held_test.go"]
+         "search/zz_verif_c19held_test.go", "search/zz_verif_c19own_test.go"]
 SPEC = dict(
     level="proof",
     harness=dict(pkg_dir="search", run="TestVerifC19$", files=FILES, n_quick=40, n_thorough=400),
-    runner=dict(imports=["From ZV Require Import Lib.Base Model.Watcher."], case_type="c19case",
-                mismatch_fn="c19_mismatches", shard=1000),
+    runner=dict(imports=["From ZV Require Import Lib.Base Model.Watcher Model.C19Cases."], case_type="c19xcase",
+                mismatch_fn="c19x_mismatches", shard=1000),
     rule="script cases: 4-9 steps of 1-3 directory changes each (create / replace by rename / delete / sidecar write+delete / junk / "
          "odd *.zoekt names incl. '_.'-names / unloadable files; names x versions {15,16,17,18} x shard {0,1}; replacement mtimes "
          "later, EQUAL and OLDER than the replaced file's; sidecars later than / equal to the shard, dominating sidecars removed) on a "
@@ -17,11 +18,23 @@ SPEC = dict(
          "{_ . v digits + - / ...}; non-trivial = contains both '_' and '.'. Every script also HOLDS the lists getLoaded() returns after "
          "the drop and after each scan and iterates them again after later scans (s_held). held-search cases (12 quick / 120 thorough): "
          "a real Search/StreamSearch held open by 2*procs+2..+6 fake shards blocking on a gate (GOMAXPROCS 1-3) while 1-4 batches of "
-         "replace/drop/add go through shardedSearcher.replace; non-trivial = at least one replace or drop.",
+         "replace/drop/add go through shardedSearcher.replace; non-trivial = at least one replace or drop. ownership cases (84 quick / "
+         "400 thorough): 1-3 shards from a pool of generated shard images served from memory the test owns (every fifth trial: really "
+         "mmap'd scratch files), every combination of {LineMatches, ChunkMatches} x {Whole} x {NumContextLines 0,1,3} over seven query "
+         "kinds (content / file name / either / regexp / symbol / const / or), through the raw index searcher, raw + the real copyFiles, "
+         "shardedSearcher.Search and StreamSearch; the result is deep-copied by a reflective walk over every []byte and string, the shard "
+         "memory is overwritten (XOR 0xff) or unmapped (IndexFile.Close) and the result walked again; non-trivial = the raw result had "
+         "views of shard memory in at least two fields.",
     trusted_base=["correspondence harness harness/overlay/search/zz_verif_c19_test.go (directory scripts, content identities via a "
                   "real search on each loaded shard, Go oracle) and zz_verif_c19held_test.go (searches held open by blocking fake shards)",
                   "coq/Model/RankedStore.v: Go slices as (address, length) headers into a store of arrays; the order of the published "
                   "list (ranking) is not modelled, lists are compared as sets of (key, content)",
+                  "ownership (coq/Model/ResultOwn.v): a result is the list of its non-nil []byte fields (field path, region/offset/length "
+                  "header); copyFiles is read by translator/resultfields (go/parser + go/types, imports not followed) into a statement "
+                  "program whose abstract execution yields the set of copied fields for ALL elements (range loops are full walks; a range "
+                  "VALUE variable is a local copy); strings are outside the model (Go strings are immutable copies; the harness walks them "
+                  "too); the harness zz_verif_c19own_test.go ties the type table to reflection over the compiled type and the copied set to "
+                  "the real copyFiles / Search / StreamSearch",
                   "filepath.Glob / os.Lstat / strconv.Atoi modelled by their contracts (suffix filter, listing lookup, signed decimal int64)",
                   "PARTIAL: data races / use-after-unmap (finalizer + KeepAlive, mmap) are not modelled; thorough tier adds a -race "
                   "stress run of a real DirectorySearcher (harness/overlay/search/zz_verif_c19race_test.go) as evidence, not proof"],
@@ -97,7 +110,22 @@ def race_stress(ctx):
     return deciding, rec
 
 
+def generate(ctx):
+    """Generated/ResultFields.v: zoekt.SearchResult's type table and copyFiles' program, from the CURRENT sources"""
+    rc, out = vf.sh(["go", "run", os.path.join(vf.ROOT, "translator", "resultfields", "main.go"), vf.REPO],
+                    cwd=vf.REPO, env=vf.go_env(), timeout=300)
+    if rc != 0 or "Definition copy_prog" not in out or "Definition result_ty" not in out:
+        return "translator/resultfields failed: " + out[-1200:]
+    with vf._Lock("coq"):
+        vf.write_if_changed(os.path.join(vf.COQ, "Generated", "ResultFields.v"), out)
+    return None
+
+
 def run(ctx):
+    err = generate(ctx)
+    if err:
+        return vf.finish(ctx, "proof", dict(obligations=0, discharged=0), dict(evaluations=0, distinct_nontrivial=0,
+                         trusted_base=SPEC["trusted_base"], rule=SPEC["rule"]), broken=[err], assumptions=SPEC["assumptions"])
     if ctx.tier != "thorough":
         return vf.standard_check(ctx, SPEC)
     extra_fail, rec = race_stress(ctx)
